@@ -363,6 +363,15 @@ func (g *j5Gen) listItemDecl(name, pkg string, recursion int) []*jElem {
 	case 4:
 		add("choice", tRef(kOneof, name+"Choice", pkg+"."+name+"Choice"))
 		out = append(out, oneofDecl(name+"Choice", fld("again", tRef(kObject, name, pkg+"."+name)), fld("leaf", &jT{Kind: kObject, Inline: &jDecl{Kind: kObject, Fields: []*jF{fld("x", tScalar(kString))}}})))
+	case 5:
+		// a cycle made of oneofs only
+		add("filter", tRef(kOneof, name+"Filter", pkg+"."+name+"Filter"))
+		out = append(out, oneofDecl(name+"Filter", fld("not", tRef(kOneof, name+"Filter", pkg+"."+name+"Filter")), fld("leaf", &jT{Kind: kObject, Inline: &jDecl{Kind: kObject, Fields: []*jF{fld("x", tScalar(kString).with(func(t *jT) { t.List = &jList{Searchable: true} }))}}})))
+	case 6:
+		// two oneofs holding each other
+		add("filter", tRef(kOneof, name+"And", pkg+"."+name+"And"))
+		out = append(out, oneofDecl(name+"And", fld("either", tRef(kOneof, name+"Or", pkg+"."+name+"Or")), fld("leaf", &jT{Kind: kObject, Inline: &jDecl{Kind: kObject, Fields: []*jF{fld("x", tScalar(kString))}}})))
+		out = append(out, oneofDecl(name+"Or", fld("both", tRef(kOneof, name+"And", pkg+"."+name+"And")), fld("leaf", &jT{Kind: kObject, Inline: &jDecl{Kind: kObject, Fields: []*jF{fld("y", tInt("INT64").with(func(t *jT) { t.List = &jList{Filterable: true} }))}}})))
 	}
 	out = append([]*jElem{{Decl: &jDecl{Kind: kObject, Name: name, Fields: fields}}}, out...)
 	return out
